@@ -125,6 +125,9 @@ class Translator:
             raise Untranslatable('free name %s' % e.id)
         if isinstance(e, ast.Tuple) and not e.elts:
             return 'cEmptyTuple'
+        if '__w' in env and isinstance(e, ast.Attribute) and e.attr == 'order' and isinstance(e.value, ast.Name) and \
+                e.value.id in env:
+            return '(orderM %s)' % env[e.value.id]
         if isinstance(e, ast.Attribute) and isinstance(e.value, ast.Name) and e.value.id == 'self':
             c = self.const_property(cname, e.attr)
             if c is not None:
@@ -196,6 +199,27 @@ class Translator:
             return out
         if isinstance(e, ast.IfExp):
             return '(iteM %s %s %s)' % (self.expr(e.test, env, cname), self.expr(e.body, env, cname), self.expr(e.orelse, env, cname))
+        if '__w' in env and isinstance(e, ast.Call) and isinstance(e.func, ast.Attribute) and \
+                isinstance(e.func.value, ast.Name) and e.func.value.id == 'self':
+            if e.func.attr == 'last_applied' and not e.args and not e.keywords:
+                return '(lastAppliedM %s)' % env['__w']
+            if e.func.attr == '_get_migrations' and len(e.args) == 1 and len(e.keywords) == 1 and \
+                    e.keywords[0].arg == 'reverse':
+                # a call of the method translated next to this one (Gen/Migration.lean, `get_migrations_MigrationSet`)
+                return ('(bindM %s fun a_self => bindM %s fun a_number => bindM %s fun a_reverse =>\n      '
+                        'get_migrations_MigrationSet a_self a_number a_reverse)'
+                        % (env['self'], self.expr(e.args[0], env, cname), self.expr(e.keywords[0].value, env, cname)))
+            if e.func.attr == 'migrations' and not e.args and not e.keywords:
+                return '(migrationsM %s)' % env['self']
+        if '__w' in env and isinstance(e, ast.Call) and isinstance(e.func, ast.Name) and e.func.id == 'sorted' and \
+                len(e.args) == 1 and sorted(k.arg for k in e.keywords) == ['key', 'reverse']:
+            key = [k.value for k in e.keywords if k.arg == 'key'][0]
+            rev = [k.value for k in e.keywords if k.arg == 'reverse'][0]
+            if isinstance(key, ast.Lambda) and len(key.args.args) == 1 and isinstance(key.body, ast.Attribute) and \
+                    key.body.attr == 'order' and isinstance(key.body.value, ast.Name) and \
+                    key.body.value.id == key.args.args[0].arg:
+                # sorted(xs, key=lambda x: x.order, reverse=r)
+                return '(sortedByOrderM %s %s)' % (self.expr(e.args[0], env, cname), self.expr(rev, env, cname))
         if isinstance(e, ast.Call) and not e.keywords:
             f = e.func
             if isinstance(f, ast.Name):
@@ -328,6 +352,9 @@ class Translator:
                 if isinstance(n, ast.Call) and isinstance(n.func, ast.Attribute) and n.func.attr == 'append' and \
                         isinstance(n.func.value, ast.Name):
                     out.add(n.func.value.id)
+                if isinstance(n, ast.Call) and isinstance(n.func, ast.Attribute) and \
+                        n.func.attr in ('up', 'down', 'save_applied_number'):
+                    out.add('__w')               # an effect on the world the method acts on
         return out
 
     @staticmethod
@@ -450,6 +477,25 @@ class Translator:
             # a, b = c1, c2 with constants on the right: the order of the single assignments cannot matter
             singles = [ast.Assign(targets=[t], value=v) for t, v in zip(s.targets[0].elts, s.value.elts)]
             return self.block(singles + rest, env, cname, end, brk)
+        if '__w' in env and isinstance(s, ast.Expr) and isinstance(s.value, ast.Call) and \
+                isinstance(s.value.func, ast.Attribute) and s.value.func.attr in ('up', 'down') and not s.value.args and \
+                isinstance(s.value.func.value, ast.Name) and s.value.func.value.id in env:
+            # m.up() / m.down(): a step body - an effect on the world that may raise (which ends the request)
+            self.fresh += 1
+            w = 'w%d' % self.fresh
+            env2 = dict(env)
+            env2['__w'] = '(pure %s)' % w
+            return '(stepBodyM .%s %s %s fun %s =>\n      %s)' % (s.value.func.attr, env[s.value.func.value.id], env['__w'], w,
+                                                                 self.block(rest, env2, cname, end, brk))
+        if '__w' in env and isinstance(s, ast.Expr) and isinstance(s.value, ast.Call) and \
+                isinstance(s.value.func, ast.Attribute) and s.value.func.attr == 'save_applied_number' and \
+                isinstance(s.value.func.value, ast.Name) and s.value.func.value.id == 'self' and len(s.value.args) == 1:
+            self.fresh += 1
+            w = 'w%d' % self.fresh
+            env2 = dict(env)
+            env2['__w'] = '(pure %s)' % w
+            return '(saveAppliedM %s %s fun %s =>\n      %s)' % (self.expr(s.value.args[0], env, cname), env['__w'], w,
+                                                               self.block(rest, env2, cname, end, brk))
         if isinstance(s, ast.Expr) and isinstance(s.value, ast.Call) and isinstance(s.value.func, ast.Attribute) and \
                 s.value.func.attr == 'append' and isinstance(s.value.func.value, ast.Name) and \
                 s.value.func.value.id in env and len(s.value.args) == 1:
@@ -636,6 +682,44 @@ def translate_policy(repo):
     return '\n'.join(out) + '\n', [('policy', c, []) for c in done], [('policy', c, r) for c, r in failed]
 
 
+MIGRATION_METHODS = ['_get_migrations', 'up', 'down']
+
+
+def translate_migration(repo):
+    out = ['import Model.PyPrim', '/-! GENERATED by harness/pytolean.py from vakt/storage/migration.py - do not edit -/',
+           'set_option linter.unusedVariables false', 'namespace Vakt.GenMigration', 'open Vakt Vakt.PyPrim Vakt.Migration', '']
+    done, failed = [], []
+    tr = Translator(ast.parse(open(os.path.join(repo, 'vakt', 'storage', 'migration.py')).read()))
+    for m in MIGRATION_METHODS:
+        try:
+            f = tr.method('MigrationSet', m)
+            params = [a.arg for a in f.args.args]
+            tr.attrs, tr.fresh = set(), 0
+            env = {p: '(pure p_%s)' % p for p in params}
+            env['__w'] = '(pure p_w)'
+            # the method acts on a world (the store's recorded version and schema, the fault plan); it returns the world
+            body = tr.block(f.body, env, 'MigrationSet', end=lambda e: e['__w'])
+            if m == '_get_migrations':
+                # no effect on the world: an ordinary function of its arguments
+                body = tr.block(f.body, env, 'MigrationSet', end=lambda e: 'cNone')
+                out.append('/-- `vakt.storage.migration.MigrationSet._get_migrations` -/')
+                out.append('def get_migrations_MigrationSet (%s : V) : M :=\n    %s\n' % (' '.join('p_%s' % p for p in params), body))
+                done.append(m)
+                continue
+            out.append('/-- `vakt.storage.migration.MigrationSet.%s` (its effects made explicit: the last parameter and the '
+                       'result are the world it acts on) -/' % m)
+            out.append('def %s_MigrationSet (%s p_w : V) : M :=\n    %s\n' % (m, ' '.join('p_%s' % p for p in params), body))
+            done.append(m)
+        except Untranslatable as e:
+            failed.append((m, str(e)))
+    out.append('def translatedMigration : List String := [%s]' % ', '.join('"%s"' % c for c in done))
+    out.append('def untranslatedMigration : List (String × String) := [%s]' % ', '.join(
+        '("%s", "%s")' % (c, r.replace('"', "'")) for c, r in failed))
+    out.append('')
+    out.append('end Vakt.GenMigration')
+    return '\n'.join(out) + '\n', [('migration', c, []) for c in done], [('migration', c, r) for c, r in failed]
+
+
 GUARD_METHODS = ['check_context_restriction', 'check_policies_allow', 'is_allowed_check']
 
 
@@ -717,7 +801,16 @@ def regenerate(repo, lean_dir):
                  % str(e).replace('-/', '- /')[:300])
         otr, oun = [], [('policy', '*', str(e))]
     changed = _write(os.path.join(lean_dir, 'Gen', 'Policy.lean'), otext) or changed
-    return changed, translated + ctr + gtr + ptr + otr, untranslated + cun + gun + pun + oun
+    try:
+        mtext, mtr, mun = translate_migration(repo)
+    except Exception as e:
+        mtext = ('import Model.PyPrim\n/-! GENERATED by harness/pytolean.py: translation failed: %s -/\n'
+                 'namespace Vakt.GenMigration\ndef translatedMigration : List String := []\n'
+                 'def untranslatedMigration : List (String × String) := []\nend Vakt.GenMigration\n'
+                 % str(e).replace('-/', '- /')[:300])
+        mtr, mun = [], [('migration', '*', str(e))]
+    changed = _write(os.path.join(lean_dir, 'Gen', 'Migration.lean'), mtext) or changed
+    return changed, translated + ctr + gtr + ptr + otr + mtr, untranslated + cun + gun + pun + oun + mun
 
 
 if __name__ == '__main__':
@@ -731,5 +824,7 @@ if __name__ == '__main__':
         text, tr, un = translate_parser(repo)
     if '--policy' in sys.argv:
         text, tr, un = translate_policy(repo)
+    if '--migration' in sys.argv:
+        text, tr, un = translate_migration(repo)
     sys.stdout.write(text)
     sys.stderr.write('translated %d, untranslated %d: %r\n' % (len(tr), len(un), un))
